@@ -92,6 +92,17 @@ def run(tier, seed):
         traces.append({"trace": trh, "cases": hcases, "origin": f"hedged reads dropped inside executors (yields={y})",
                        "strict": True})
 
+    # an unordered group {slow chain, fast node} under REPAIR: both members are dirty, the fast one is found
+    # changed (or panics) while the check of the slow one is still suspended inside its re-execution; what the
+    # engine then abandons must not damage what the re-execution records (tools/gen_unord.py race)
+    rcases = os.path.join(wd, "unord_race.cases")
+    vp.run(["python3", os.path.join(vp.ROOT, "tools", "gen_unord.py"), "race", rcases, str(seed)])
+    for y in (1, 3):
+        trr = os.path.join(wd, f"unord_race_y{y}.ndjson")
+        ec.eng_seq(bd, trr, mode="replay", yields=y, cfg="mem", **{"in": rcases})
+        traces.append({"trace": trr, "cases": rcases, "origin": f"unordered group repaired while a member is slow (yields={y})",
+                       "strict": True})
+
     summary = ec.collect(PID, traces, verdict, known, "mem")
     baseline_same = ec.finish_candidates(PID, verdict, summary, wd, "eng_cancel", [])
     rc = verdict.finish()
